@@ -24,7 +24,10 @@ def obs_day(case):
     """case: dict(text, D, ts(tuple), label, form) -> observation of family `day`."""
     ts = ts_of(case["ts"])
     val, _ = parse_val(case["text"], ts)
-    return {"fam": "day", "D": case["D"], "ts": qa.ts_json(ts), "val": val}
+    return {"fam": "day", "D": case["D"], "D2": case.get("D2", NODAY), "ts": qa.ts_json(ts), "val": val}
+
+
+NODAY = {"dk": "none", "n1": -1, "n2": -1, "n3": -1, "s": "X"}
 
 
 def boundary_dates(years=(2019, 2020, 2023, 2024), extra=()):
@@ -59,3 +62,70 @@ def all_days(y0=2016, y1=2043):
 
 def strip_private(o):
     return {k: v for k, v in o.items() if not k.startswith("_")}
+
+
+NOCLOCK = {"ck": "none", "h": -1, "mi": -1}
+
+
+def obs_dayclock(case):
+    ts = ts_of(case["ts"])
+    val, _ = parse_val(case["text"], ts)
+    return {"fam": "dayclock", "D": case["D"], "C": case["C"], "ts": qa.ts_json(ts), "val": val}
+
+
+def obs_clock(case):
+    ts = ts_of(case["ts"])
+    val, _ = parse_val(case["text"], ts, latent=bool(case["latent"]))
+    return {"fam": "clock", "C": case["C"], "ts": qa.ts_json(ts), "latent": int(case["latent"]), "val": val}
+
+
+def obs_glue(case):
+    ts = ts_of(case["ts"])
+    vd, _ = parse_val(case["day_text"], ts)
+    vc, _ = parse_val(case["clock_text"], ts, latent=False)
+    vb, _ = parse_val(case["text"], ts)
+    return {"fam": "glue", "D": case["D"], "C": case["C"], "ts": qa.ts_json(ts), "vd": vd, "vc": vc, "vb": vb}
+
+
+def obs_crange(case):
+    ts = ts_of(case["ts"])
+    val, _ = parse_val(case["text"], ts, latent=(case["ctx"] != "bare"))
+    return {"fam": "crange", "ctx": case["ctx"], "D": case.get("D", NODAY), "A": case["A"], "B": case["B"],
+            "ts": qa.ts_json(ts), "val": val}
+
+
+def obs_drange(case):
+    ts = ts_of(case["ts"])
+    val, _ = parse_val(case["text"], ts)
+    return {"fam": "drange", "D1": case["D1"], "D2": case["D2"], "ts": qa.ts_json(ts), "val": val}
+
+
+def obs_halfopen(case):
+    ts = ts_of(case["ts"])
+    val, _ = parse_val(case["text"], ts, latent=False)
+    return {"fam": "halfopen", "side": case["side"], "D": case.get("D", NODAY), "C": case.get("C", NOCLOCK),
+            "ts": qa.ts_json(ts), "val": val}
+
+
+def obs_dur(case):
+    ts = ts_of(case["ts"])
+    val, _ = parse_val(case["text"], ts)
+    return {"fam": "dur", "n": case["n"], "u": case["u"], "val": val}
+
+
+def obs_fordur(case):
+    ts = ts_of(case["ts"])
+    val, _ = parse_val(case["text"], ts)
+    return {"fam": "fordur", "D": case["D"], "C": case.get("C", NOCLOCK), "n": case["n"], "u": case["u"],
+            "ts": qa.ts_json(ts), "val": val}
+
+
+def obs_durrange(case):
+    ts = ts_of(case["ts"])
+    val, r = parse_val(case["text"], ts)
+    full = 0
+    if r is not None and r.resolution is not None:
+        txt = qa.CTP._preprocess_string(case["text"])
+        full = 1 if (r.resolution.mstart == 0 and r.resolution.mend >= len(txt.rstrip())) else 0
+    return {"fam": "durrange", "n": case["n"], "u": case["u"], "D1": case["D1"], "D2": case["D2"],
+            "ts": qa.ts_json(ts), "val": val, "full": full}
